@@ -60,6 +60,10 @@ def project_list(tier):
     out.append(("pc4", ("f_prodcons4", {})))
     for lead in (0, 2, 4):
         out.append((f"deferwin{lead}", ("f_deferwin", {"lead": lead})))
+    # a deferred planning script runs again while the slow consumer of a chain it defined may
+    # complete detached, before both steps of the chain are re-declared
+    for slow_len in (4, 8):
+        out.append((f"deferchain{slow_len}", ("f_deferplan", {"chain": 1, "slow_len": slow_len})))
     # a rebuild in which a producer runs again and reproduces its output byte for byte while a
     # consumer (a new version of its script) amends that output
     for lead in (0, 1):
@@ -80,7 +84,7 @@ def configs(name, tier):
         yield {"njob": 3, "resources": None}
         yield {"njob": 3, "resources": None, "policy": "fifo"}
         return
-    if name.startswith("deferwin"):
+    if name.startswith(("deferwin", "deferchain")):
         # two base schedules with four jobs, and the sequential one
         yield {"njob": 1, "resources": None}
         yield {"njob": 4, "resources": None}
@@ -270,7 +274,8 @@ def finish(total, tier, seed):
                 # one root cause under many projects: an input that is not available (OUTDATED,
                 # detached) at the moment its consumer completes is left out of the stored input
                 # digest; states, relations and files agree
-                "C02|inp-digest-depends-on-schedule" if digest_only else
+                "C02|inp-digest-depends-on-schedule|" + name.split("/")[0] + "|"
+                + ",".join(sorted({str(d.get("node")) for d in diff_all})) if digest_only else
                 f"C02|{name}|graph-depends-on-schedule",
                 {"project": name, "why": "graph after a successful build depends on schedule",
                  "a": {"cfg": a["cfg"], "prefix": a["prefix"]}, "b": {"cfg": b["cfg"], "prefix": b["prefix"]},
